@@ -160,3 +160,17 @@ bounded_only('C07', 'bounded.c07',
     ['PythonRegex.__init__ rewrite pipeline', '_preprocess_brackets*', '_preprocess_negation', '_preprocess_positive_closure', '_add_repetition', '_preprocess_optional', '_separate', '_recombine'],
     'case = one pattern with its sampled strings; non-trivial = pattern uses a quantifier, a set or an alternation',
     {'quick': '1616 patterns x 51 strings', 'thorough': '16016 patterns x 51 strings'}, hashseeds={'quick': [0], 'thorough': [0, 1]})
+
+bounded_only('C16', 'bounded.c16',
+    'Bounded stand-in only: list(translate(w)) compared as a set with the transduction relation (exploration of (state, position, output) configurations) for all words of length <=3 on random FSTs with <=3 states whose epsilon cycles write nothing; union / concatenate / kleene_star results are read back structurally and compared (outputs of length <=4) with the textbook constructions; to_fst() is the identity restricted to the automaton language.',
+    'Trusted: specs/fst.py; outputs of results compared up to 4 symbols; state names are strings (FSTStateRemaining concatenates).',
+    ['FST.translate', 'FST.union', 'FST.concatenate', 'FST.kleene_star', 'FSTStateRemaining', 'FiniteAutomaton.to_fst'],
+    'case = ordered pair of FSTs (5% same object) or one automaton for to_fst; non-trivial = some word of length <=2 is translated and there is an epsilon-input move',
+    {'quick': '1500 FST pairs + 500 automata; words <=3', 'thorough': '15000 + 5000, 8 hash seeds'})
+
+bounded_only('C14', 'bounded.c14',
+    'Bounded stand-in only: get_first_set / get_follow_set compared with the textbook least fixpoints, is_llone_parsable with predict-set disjointness, and for LL(1) grammars get_llone_parse_tree(w) must return a valid tree exactly for members (all words of length <=4 over the terminals plus an unknown symbol, incl. proper prefixes and extensions of members) and raise NotParsableException only, on the enumerated grammars without useless symbols.',
+    'Trusted: specs/ll1.py (FIRST/FOLLOW/LL(1) from the textbook definitions), specs/cfg.py membership oracle.',
+    ['LLOneParser.get_first_set', 'get_follow_set', 'get_llone_parsing_table', 'is_llone_parsable', 'get_llone_parse_tree', 'SetQueue'],
+    'case = one grammar without useless symbols; non-trivial = LL(1) and (epsilon production or >=3 productions)',
+    {'quick': 'useless-free grammars among 12384 exhaustive + 2500 random; words <=4', 'thorough': '124k exhaustive + 25000 random'})
